@@ -334,7 +334,8 @@ func Prelude() string {
 (define-fun alloc ((r Ref) (n Int)) Bool (ite ((_ is obj) r) (and (< 0 (oid r)) (< (oid r) n)) (ite ((_ is elem) r) (and (< 0 (earr r)) (< (earr r) n)) true)))
 (define-fun slice_ok ((s Slice) (n Int)) Bool (and (<= 0 (soff s)) (<= 0 (slen s)) (<= (slen s) (scap s)) (<= 0 (sarr s)) (< (sarr s) n) (=> (= (sarr s) 0) (and (= (scap s) 0) (= (soff s) 0)))))
 (define-fun iface_ok ((x Iface) (n Int)) Bool (and (>= (itag x) 0) (alloc (iref x) n) (slice_ok (islice x) n) (=> (= (itag x) 0) (= x iface_nil))))
-(define-fun selem ((s Slice) (i Int)) Ref (elem (sarr s) (+ (soff s) i)))
+(declare-fun selem (Slice Int) Ref)
+(assert (forall ((s Slice) (i Int)) (! (= (selem s i) (elem (sarr s) (+ (soff s) i))) :pattern ((selem s i)))))
 (declare-fun Str_len (Str) Int)
 (assert (forall ((s Str)) (! (>= (Str_len s) 0) :pattern ((Str_len s)))))
 (assert (forall ((s Str)) (! (=> (= (Str_len s) 0) (= s str_empty)) :pattern ((Str_len s)))))
